@@ -1667,7 +1667,7 @@ class constructors_touch_no_data:
     user block function on a non-empty block; data is read only when the graph is executed"""
     bounded_only = True
     params = {"op": "const", "dtype": "const", "vdtype": "const"}
-    scope = "26 constructor kinds (incl. asarray/asanyarray/array and implicit coercion of a raw source) over recording sources (int and float dtypes for targets and values); metadata accessors afterwards"
+    scope = "29 constructor kinds (incl. asarray/asanyarray/array and implicit coercion of a raw source) over recording sources (int and float dtypes for targets and values); metadata accessors afterwards"
 
     def real():
         return lambda: None
@@ -1744,6 +1744,13 @@ class constructors_touch_no_data:
         elif op == "coerce-setitem":
             x[:] = s2
             r = x
+        elif op == "zero-d-source":
+            s2 = cat.RecordingSource(np.array(5.0).astype(vdtype))
+            r = da.from_array(s2, chunks=()) + 1
+        elif op == "map_blocks-infer-dtype":
+            r = x.map_blocks(user)
+        elif op == "asarray-like":
+            r = da.asarray(s2, like=np.empty(0)) + x
         else:
             raise ValueError(op)
         r.shape, r.chunks, r.dtype, r.name, r.numblocks
@@ -1768,12 +1775,25 @@ class constructors_touch_no_data:
             return {"raw-source-assigned-into-integer-array-not-read": r1 == [] and r2 == [],
                     "no-user-function-call-on-nonempty-block-before-execution": calls == [],
                     "data-is-read-at-execution": after > 0}
+        if op == "zero-d-source":
+            # F31: the meta of a 0-d source is built with source[()], which selects its one element
+            return {"zero-d-source-not-read-for-its-meta": r1 == [] and r2 == [],
+                    "no-user-function-call-on-nonempty-block-before-execution": calls == []}
+        if op == "map_blocks-infer-dtype":
+            # F32: without dtype= / meta=, the dtype is inferred by calling the user function on a block of one element
+            return {"no-source-read-before-execution": r1 == [] and r2 == [],
+                    "dtype-inference-does-not-call-the-user-function-on-a-nonempty-block": calls == [],
+                    "data-is-read-at-execution": after > 0}
+        if op == "asarray-like":
+            # F33: asarray(source, like=...) converts the source with np.asarray at construction
+            return {"asarray-like-does-not-read-the-source": r1 == [] and r2 == [],
+                    "no-user-function-call-on-nonempty-block-before-execution": calls == []}
         return {"no-source-read-before-execution": r1 == [] and r2 == [],
                 "no-user-function-call-on-nonempty-block-before-execution": calls == [],
                 "data-is-read-at-execution": after > 0}
 
     def domain(tier, rng):
-        ops = ["setitem-lazy", "setitem-lazy-full", "setitem-scalar", "setitem-mask", "where", "map_blocks", "map_blocks-info",
+        ops = ["zero-d-source", "map_blocks-infer-dtype", "asarray-like", "setitem-lazy", "setitem-lazy-full", "setitem-scalar", "setitem-mask", "where", "map_blocks", "map_blocks-info",
                "map_overlap", "concat-stack", "reshape-T", "reduce", "astype-clip", "rechunk-slice", "take", "mask-select",
                "blockwise-apply", "cumsum", "swv", "asarray", "asarray-dtype", "asanyarray", "array", "coerce-elemwise",
                "coerce-where", "coerce-concatenate", "coerce-setitem"]
